@@ -116,6 +116,8 @@ def c17_2(c: Ctx) -> None:
     for n in own_nodes(u.node):
         if isinstance(n, ast.Assign) and isinstance(n.targets[0], ast.Name) and isinstance(n.value, ast.Call) and call_name(n.value) == 'model_dump_json':
             dumps[n.targets[0].id] = n.value
+        elif isinstance(n, ast.AnnAssign) and isinstance(n.target, ast.Name) and isinstance(n.value, ast.Call) and call_name(n.value) == 'model_dump_json':
+            dumps[n.target.id] = n.value
     ok = isinstance(arg, ast.BinOp) and isinstance(arg.op, ast.Add) and isinstance(arg.right, ast.Constant) and arg.right.value == '\n'
     dump_call = None
     if ok:
